@@ -269,9 +269,16 @@ where
     | some (s, args) =>
       let fuel := 4 * (Marwood.Driver.Store.fuelOf s) + 64
       if name == "list?" then some (classOfRes (isListTH fuel s args))
-      -- the C14 driver's `map` / `for-each` know only the callees C14 generates and answer an arity
-      -- error for the list-less call, which the prelude definition does not: no model here
-      else if name == "map" || name == "for-each" then some "no-model"
+      -- `map` / `for-each` (prelude closures; since the repair `(map f)` without a list is the arity error
+      -- of the closure, which `Store.map` / `Store.forEach` answer themselves): the procedure argument is a
+      -- palette VALUE, i.e. a reference to the builtin's cell — the C14 callee model wants the name
+      else if name == "map" || name == "for-each" then
+        let args' := match args with
+          | f :: ls => (match s.get f with | .ok (.builtin n) => VCell.builtin n | _ => f) :: ls
+          | [] => []
+        match Marwood.Driver.Store.runModel (Marwood.Driver.Store.tableOf []) s name args' with
+        | some r => some (classOfRes r)
+        | none => some "no-model"
       else
         match Marwood.Driver.Store.runModel (Marwood.Driver.Store.tableOf []) s name args with
         | some r => some (classOfRes r)
